@@ -1,9 +1,8 @@
-import Fundraising.Proofs.LedgerProofs
-import Fundraising.Proofs.EscrowProofs
-import Fundraising.Proofs.WFProofs
-import Fundraising.Props.C01
+import Fundraising.Proofs.C02Base
+import Fundraising.Proofs.AccountingProofs
 /-
   C02 — Operations are zero-sum and every participant ends with exactly their due.
+  (Proofs: Proofs/LedgerProofs.lean, Proofs/C02Base.lean, Proofs/AccountingProofs.lean.)
 -/
 namespace Fundraising
 
@@ -12,27 +11,17 @@ namespace Fundraising
 theorem C02_ledger (st : State) (op : Op) (hop : op.isModuleOp = true)
     (hok : (step st op).1.res = .ok) (a : Addr) (d : Denom) :
     (step st op).2.core.bank a d = st.core.bank a d + ((xfersOf (step st op).1.effs).map (·.delta a d)).sum :=
-  ledger_pointwise st op hop hok a d
+  c02_ledger st op hop hok a d
 
 /-- … each of which is zero-sum over any set of accounts containing both ends … -/
 theorem C02_transfer_zero_sum (t : Transfer) (L : List Addr) (hnd : L.Nodup) (hs : t.src ∈ L) (hd : t.dst ∈ L)
     (d : Denom) : (L.map (fun a => t.delta a d)).sum = 0 :=
-  delta_zero_sum t L hnd hs hd d
+  c02_transfer_zero_sum t L hnd hs hd d
 
 /-- … and a failed operation moves nothing. -/
 theorem C02_failed_moves_nothing (st : State) (op : Op) (hop : op.isModuleOp = true)
     (h : (step st op).1.res ≠ .ok) : (step st op).2.core.bank = st.core.bank :=
-  failed_op_no_transfer st op hop h
-
-/-- a bid on an auction that does not exist is rejected -/
-theorem place_needs_view (st : State) (bidder : Acc) (aid : Nat) (t : BidType) (price : Dec)
-    (denom : Denom) (amt : Int) (hv : st.core.views[aid]? = none)
-    (hok : (step st (.msg (.place bidder aid (some t) price denom amt))).1.res = .ok) : False := by
-  rcases runAtomic_cases st true (fun c => deliver c (.place bidder aid (some t) price denom amt)) with
-    ⟨c, hc, _⟩ | ⟨e, _, _, hne⟩
-  · simp only [deliver, handle, placeBid, Ctx.view, hv, Ctx.fail, bind, Except.bind] at hc
-    split at hc <;> cases hc
-  · exact hne hok
+  c02_failed_moves_nothing st op hop h
 
 /-- **the only amounts that leave a user's account**: in a successful module operation every
     transfer whose source is a user account is (a) the advertised creation fee or the offered
@@ -49,63 +38,8 @@ theorem C02_user_debits (st : State) (op : Op) (hop : op.isModuleOp = true)
     (∃ aid t price denom amt, op = .msg (.place u aid (some t) price denom amt) ∧
         (x = ⟨.pool, .user u, .pool, st.core.params.bidFee⟩ ∨ (x.kind = .send ∧ x.dst = .pay aid))) ∨
     (∃ aid bidId price denom amt, op = .msg (.modify u aid bidId price denom amt) ∧
-        x.kind = .send ∧ x.dst = .pay aid) := by
-  cases op with
-  | msg m =>
-    cases m with
-    | create m =>
-      have h := create_transfers st m hok
-      rw [h] at hx
-      simp only [List.mem_cons, List.not_mem_nil, or_false] at hx
-      refine Or.inl ⟨m, rfl, ?_, ?_⟩
-      · rcases hx with rfl | rfl <;> (simp at hu; exact hu.symm)
-      · rcases hx with rfl | rfl
-        · simp at hu; subst hu; exact Or.inl rfl
-        · simp at hu; subst hu; exact Or.inr rfl
-    | cancel signer aid =>
-      obtain ⟨coins, h⟩ := cancel_transfers st signer aid hok
-      rw [h] at hx; simp at hx; subst hx; simp at hu
-    | place bidder aid t price denom amt =>
-      cases t with
-      | none => simp [step, runAtomic, deliver, validateBasic, Ctx.check, Ctx.fail, bind, Except.bind] at hok
-      | some t =>
-        cases hv : st.core.views[aid]? with
-        | none =>
-          exfalso
-          exact place_needs_view st bidder aid t price denom amt hv hok
-        | some v =>
-          have h := place_transfers st bidder aid t price denom amt v hv hok
-          simp only at h
-          rw [h] at hx
-          simp only [List.mem_cons, List.not_mem_nil, or_false] at hx
-          refine Or.inr (Or.inl ⟨aid, t, price, denom, amt, ?_, ?_⟩)
-          · rcases hx with rfl | rfl <;> (simp at hu; subst hu; rfl)
-          · rcases hx with rfl | rfl
-            · simp at hu; subst hu; exact Or.inl rfl
-            · exact Or.inr ⟨rfl, rfl⟩
-    | modify bidder aid bidId price denom amt =>
-      rcases modify_transfers st bidder aid bidId price denom amt hok with h | ⟨d, y, _, h⟩
-      · rw [h] at hx; simp at hx
-      · rw [h] at hx; simp at hx; subst hx
-        simp at hu; subst hu
-        exact Or.inr (Or.inr ⟨aid, bidId, price, denom, amt, rfl, rfl, rfl⟩)
-    | addAllowed a ab =>
-      have := admin_no_transfers st (.msg (.addAllowed a ab)) (Or.inr (Or.inr (Or.inr ⟨a, ab, rfl⟩)))
-      rw [this] at hx; simp at hx
-    | updateParams s p =>
-      have := admin_no_transfers st (.msg (.updateParams s p)) (Or.inr (Or.inr (Or.inl ⟨s, p, rfl⟩)))
-      rw [this] at hx; simp at hx
-  | kadd a abs =>
-    have := admin_no_transfers st (.kadd a abs) (Or.inl ⟨a, abs, rfl⟩)
-    rw [this] at hx; simp at hx
-  | kupd a u' c =>
-    have := admin_no_transfers st (.kupd a u' c) (Or.inr (Or.inl ⟨a, u', c, rfl⟩))
-    rw [this] at hx; simp at hx
-  | block t =>
-    rcases block_transfers st t x hx with ⟨i, _, hsrc, _⟩ | ⟨i, hsrc, _⟩
-    · rcases hsrc with h | h | h <;> (rw [h] at hu; cases hu)
-    · rw [hsrc] at hu; cases hu
-  | _ => simp [Op.isModuleOp] at hop
+        x.kind = .send ∧ x.dst = .pay aid) :=
+  c02_user_debits st op hop hok x hx u hu
 
 /-- **nothing is left in escrow** once an auction is finished or cancelled (history without
     third-party transfers into escrows; with them, what is left is exactly those coins —
@@ -114,14 +48,8 @@ theorem C02_terminal_escrows_empty (ops : List Op) (h : NoEscrowGifts ops) (i : 
     (hv : (run {} ops).core.views[i]? = some v)
     (hs : v.a.status = .finished ∨ v.a.status = .cancelled) (d : Denom) :
     (run {} ops).core.bank (.sell i) d = 0 ∧ (run {} ops).core.bank (.pay i) d = 0 ∧
-    (run {} ops).core.bank (.vest i) d = 0 := by
-  have hx := (C01_escrow_exact ops h).1 i v hv
-  have h1 := hx.sell d; have h2 := hx.pay d; have h3 := hx.vest d
-  have e1 : owedSell v = 0 := by unfold owedSell; rcases hs with hs | hs <;> simp [hs]
-  have e2 : owedPay v = 0 := by unfold owedPay; rcases hs with hs | hs <;> simp [hs]
-  have e3 : owedVest v = 0 := by unfold owedVest; rcases hs with hs | hs <;> simp [hs]
-  rw [e1] at h1; rw [e2] at h2; rw [e3] at h3
-  exact ⟨by simpa using h1, by simpa using h2, by simpa using h3⟩
+    (run {} ops).core.bank (.vest i) d = 0 :=
+  c02_terminal_escrows_empty ops h i v hv hs d
 
 /-- blocks pay out of escrows only (bidders' allocations and refunds, the auctioneer's unsold
     coins and proceeds, paying → vesting escrow of the same auction) -/
@@ -129,6 +57,34 @@ theorem C02_blocks_pay_from_escrows (st : State) (t : Int) :
     ∀ x ∈ xfersOf (step st (.block t)).1.effs,
       (∃ i u, (x.src = .sell i ∨ x.src = .pay i ∨ x.src = .vest i) ∧ x.dst = .user u) ∨
       (∃ i, x.src = .pay i ∧ x.dst = .vest i) :=
-  block_transfers st t
+  c02_blocks_pay_from_escrows st t
+
+/-- **final accounting over the whole history** (ledger form): in a history without resets
+    and third-party transfers into escrows, an escrow's balance is exactly the net of the
+    module's own bank calls … -/
+theorem C02_escrow_balance_is_ledger (ops : List Op) (hr : Op.reset ∉ ops) (hg : NoEscrowGifts ops)
+    (a : Addr) (ha : (∃ i, a = .sell i) ∨ (∃ i, a = .pay i) ∨ (∃ i, a = .vest i)) (d : Denom) :
+    (run {} ops).core.bank a d = netFlow (ledgerOf ops) a d :=
+  escrow_balance_is_ledger ops hr hg a ha d
+
+/-- … so once an auction is finished or cancelled, everything that ever entered its three
+    escrows has left them again … -/
+theorem C02_final_accounting (ops : List Op) (hr : Op.reset ∉ ops) (hg : NoEscrowGifts ops)
+    (i : Nat) (v : AView) (hv : (run {} ops).core.views[i]? = some v)
+    (hs : v.a.status = .finished ∨ v.a.status = .cancelled) (d : Denom) :
+    netFlow (ledgerOf ops) (.sell i) d = 0 ∧ netFlow (ledgerOf ops) (.pay i) d = 0 ∧
+    netFlow (ledgerOf ops) (.vest i) d = 0 :=
+  final_accounting_escrows ops hr hg i v hv hs d
+
+/-- … and over the whole history coins only ever moved: from the signer of a message to the
+    community pool (fees) or to an escrow (reservations); from an escrow to a user account
+    (allocations, refunds, unsold coins, proceeds, instalments); from a paying escrow to the
+    vesting escrow of the same auction -/
+theorem C02_ledger_shapes (ops : List Op) :
+    ∀ t ∈ ledgerOf ops,
+      (∃ u, t.src = .user u ∧ (t.dst = .pool ∨ (∃ i, t.dst = .sell i) ∨ (∃ i, t.dst = .pay i))) ∨
+      (∃ i u, (t.src = .sell i ∨ t.src = .pay i ∨ t.src = .vest i) ∧ t.dst = .user u) ∨
+      (∃ i, t.src = .pay i ∧ t.dst = .vest i) :=
+  ledger_shapes ops
 
 end Fundraising
